@@ -172,7 +172,14 @@ fn check_logit(case: &LogitCase, ctx: &mut Ctx) -> Result<(), Fail> {
         if let Err(mut e) = ctx.bound("logistic/stationarity", gn1, 1e-5 * gn0.max(1.0)) {
             // Root cause key: does L-BFGS (same optimiser, same start, mathematically identical objective, driven
             // through the verification re-export) exhaust its fixed budget of 1000 iterations on this problem?
-            if replica_hits_iteration_limit(x, &yi, k, rows, case.alpha) && gn1 <= 0.2 * gn0.max(1.0) {
+            // Second root cause (binary model only): the library evaluates ln(1+e^s) as `s` for s > 15, a jump of
+            // 3e-7 at s = 15 that makes objective and gradient inconsistent; once a training row's score passes 15 the
+            // line search rejects good steps and the optimiser stalls.
+            let max_score = (0..n).map(|i| (0..p).map(|j| w.at(0, j) * x.at(i, j)).sum::<f64>() + w.at(0, p)).fold(f64::NEG_INFINITY, f64::max);
+            if k == 2 && max_score > 15.0 && gn1 <= gn0.max(1.0) {
+                e.sig = "logistic/stationarity/softplus-jump".into();
+                e.msg = format!("{} (binary model, a training row has linear score {:.1} > 15 where RealNumber::ln_1pe switches to its discontinuous approximation; n={}, p={}, alpha={})", e.msg, max_score, n, p, case.alpha);
+            } else if replica_hits_iteration_limit(x, &yi, k, rows, case.alpha) && gn1 <= gn0.max(1.0) {
                 e.sig = "logistic/stationarity/iteration-limit".into();
                 e.msg = format!("{} (L-BFGS with its default memory of 10 needs more than its 1000 iterations on these badly scaled features; n={}, p={}, k={}, alpha={})", e.msg, n, p, k, case.alpha);
             }
@@ -262,7 +269,10 @@ fn check_quad(case: &QuadCase, ctx: &mut Ctx) -> Result<(), Fail> {
     let qn = case.q.max_abs() * d as f64;
     let floor = 64.0 * (f64::EPSILON * fscale * qn).sqrt();
     ctx.bound("lbfgs/gradient-reduction", g1, (1e-6 * g0).max(1e-7).max(floor))?;
-    ctx.bound("lbfgs/reported-value", (fx - fval(&x)).abs(), 1e-12 * fscale)?;
+    if its > 0 {
+        // (a start that is already stationary returns without evaluating f: f_x stays NaN; not part of the property)
+        ctx.bound("lbfgs/reported-value", (fx - fval(&x)).abs(), 1e-12 * fscale)?;
+    }
     ctx.bound("lbfgs/final-not-above-start", fval(&x) - f0, 1e-12 * fscale)?;
     // monotonicity, observed black-box: the optimiser is deterministic, so max_iter = k reproduces iterate k
     let kmax = its.min(20);
@@ -279,6 +289,7 @@ fn check_quad(case: &QuadCase, ctx: &mut Ctx) -> Result<(), Fail> {
 pub fn property() -> Property {
     Property {
         id: "C09",
+        quick_mult: 8,
         rule: "training sets with 1<=p<=6, 6<=n<=60 (quick) / 100 (thorough), 2..4 classes with label values from {-3,0,1,2.5,10}, class centres at separation 0.5 / 1.5 / 6 noise widths (overlapping, moderate, well separated), features scaled by 10^[-1,2] and shifted; alpha in 1e-2..10 (80%) or 0; fresh rows for predict. Quadratics 1/2 x^T Q x - b^T x with Q = R diag(l) R^T of dimension 1..12, cond 3 / 1e2 / 1e4, overall scale 1e-2..1e2, start of norm up to 1e3. non-trivial = >= 3 classes or not well separated (logistic), dimension >= 3 and cond >= 100 (quadratics); distinct = distinct serialised case",
         assumptions: vec![
             "stationarity: ||grad F(w*)||_inf <= 1e-5 * max(1, ||grad F(0)||_inf) with our own log-sum-exp objective (intercepts unpenalised); asserted for alpha > 0 only".into(),
